@@ -23,19 +23,58 @@ def RU(slice_, nkeys=3, vals=(1, 2), weights=(1,), maxt=3, depth=5):
                 maxt=maxt, depth=depth)
 
 
-SEQ_PLANS = {
-    # property: quick / thorough lists of model-checking, replay and random-driver stages
-    "C01": dict(
-        quick=dict(mc=[U("cap2"), U("expiry", nkeys=2, maxt=3), U("cap_const", nkeys=2, weights=(1, 2))],
-                   r=[RU("cap2", depth=5), RU("ttl_tti", nkeys=2, depth=5)],
-                   v=[("unsync-small", 120, 40), ("unsync-mid", 30, 120)]),
-        thorough=dict(mc=[U("cap_unit"), U("cap_weight", weights=(0, 1, 2, 5)), U("expiry", maxt=4),
-                          U("cap_const", weights=(0, 1, 2)), U("cap_exp", nkeys=2, weights=(1, 2), maxt=3),
-                          U("all_small", nkeys=2, weights=(1, 2), maxt=3)],
-                      r=[RU("cap_unit", depth=6), RU("cap_weight", weights=(0, 1, 2, 5), depth=5),
-                         RU("expiry", depth=5, maxt=4), RU("cap_exp", nkeys=2, weights=(1, 2), depth=6)],
-                      v=[("unsync-small", 1500, 60), ("unsync-mid", 300, 400)])),
+# slices by name, quick sizes (measured: 2-15 s each at 8-12 workers)
+Q = {
+    "cap2": U("cap2"),
+    "cap2k2": U("cap2", nkeys=2),
+    "expiry2": U("expiry", nkeys=2, maxt=3),
+    "cap_const2": U("cap_const", nkeys=2, weights=(1, 2)),
+    "cap1_ttl": U("cap1_ttl", nkeys=2, maxt=3),
+    "cap1_ttl0": U("cap1_ttl0", nkeys=2, maxt=2),
+    "cap2_tti": U("cap2_tti", nkeys=2, maxt=3),
+    "cap_weight2": U("cap_weight", nkeys=2, weights=(0, 1, 2, 5)),
 }
+# thorough sizes (minutes; each under its own time limit)
+T = {
+    "cap_unit": U("cap_unit", timeout=900),
+    "cap_weight3": U("cap_weight", weights=(0, 1, 2), timeout=1200),
+    "cap_weight2": U("cap_weight", nkeys=2, weights=(0, 1, 2, 5), timeout=900),
+    "expiry3": U("expiry", maxt=4, timeout=900),
+    "cap_const3": U("cap_const", weights=(0, 1, 2), timeout=900),
+    "cap1_ttl": U("cap1_ttl", nkeys=2, maxt=4, timeout=900),
+    "cap2_tti3": U("cap2_tti", nkeys=3, maxt=3, timeout=1200),
+    "cap2_ttl_tti_w": U("cap2_ttl_tti_w", nkeys=2, weights=(1, 2), maxt=3, timeout=900),
+    "cap1_ttl0": U("cap1_ttl0", nkeys=3, maxt=2, timeout=900),
+}
+RQ = [RU("cap2", depth=5), RU("ttl_tti", nkeys=2, depth=5), RU("cap_weight", nkeys=2, weights=(0, 1, 2, 5), depth=4)]
+RT = [RU("cap_unit", depth=6), RU("cap_weight", weights=(0, 1, 2, 5), depth=5), RU("expiry", depth=5, maxt=4),
+      RU("cap_exp", nkeys=2, weights=(1, 2), depth=6), RU("cap_const", nkeys=3, weights=(0, 1, 2), depth=6)]
+VQ = [("unsync-small", 120, 40), ("unsync-mid", 30, 120)]
+VT = [("unsync-small", 2000, 60), ("unsync-mid", 400, 400)]
+
+QSLICES = {
+    "C01": ["cap2", "expiry2", "cap_const2", "cap1_ttl"],
+    "C03": ["cap2", "cap_weight2", "cap1_ttl", "cap2_tti"],
+    "C04": ["cap2", "cap_weight2", "cap_const2"],
+    "C05": ["expiry2", "cap1_ttl", "cap1_ttl0"],
+    "C06": ["expiry2", "cap2_tti"],
+    "C07": ["cap2k2", "expiry2", "cap_weight2"],
+    "C08": ["cap2", "cap_weight2", "cap1_ttl"],
+    "C10": ["cap2", "cap_weight2", "cap1_ttl", "cap2_tti"],
+    "C11": ["cap2", "cap1_ttl"],
+    "C12": ["cap2", "cap_weight2", "cap2_tti"],
+    "C13": ["cap2", "cap_weight2", "cap_const2"],
+    "C14": ["cap2", "cap_const2"],
+    "C16": ["cap2", "expiry2"],
+}
+
+SEQ_PLANS = {}
+for _p, _sl in QSLICES.items():
+    SEQ_PLANS[_p] = dict(
+        quick=dict(mc=[dict(Q[n], name=n) for n in _sl], r=RQ, v=VQ),
+        thorough=dict(mc=[dict(c, name=n) for n, c in T.items()], r=RT, v=VT))
+# the C07 monitor remembers contains_key answers: keep its exhaustive universes at two keys
+SEQ_PLANS["C07"]["thorough"]["mc"] = [dict(c, name=n, nkeys=2) for n, c in T.items()] + [dict(Q["cap2"], name="cap2k3", timeout=1200)]
 
 
 def seq_plan(prop, tier):
@@ -99,7 +138,7 @@ class Ctx:
 
 def stage_mc(ctx, runs):
     for i, c in enumerate(runs):
-        name = "mc%d_%s" % (i, c["slice"])
+        name = "mc%d_%s" % (i, c.get("name", c["slice"]))
         r = V.model_check(ctx.wd, name, c["module"], constants_mc(c, [ctx.prop]), ["Ok", "NoPanic"],
                           constraints=["Stop"], workers=8, timeout=c.get("timeout", 600))
         ctx.mc.append({k: r[k] for k in ("name", "distinct", "generated", "ok", "wall_s", "timeout")})
@@ -125,6 +164,8 @@ def judge_trace(ctx, name, trace, beh_path, nkeys, layer_i, source):
         if bid in bad_bids:
             continue
         bad_bids.add(bid)
+        if len(ctx.violations) >= 8:
+            continue
         if lines is None:
             lines = V.read_lines(trace)
             behs = {b.get("id", i): b for i, b in enumerate(V.read_lines(beh_path))}
@@ -244,6 +285,10 @@ def run_property(prop, tier, seed):
     V.build_harness()
     ctx = Ctx(prop, tier, seed)
     V.prepare_dir(ctx.wd)
+    if os.path.isdir(V.REPLAYS):
+        for f in os.listdir(V.REPLAYS):
+            if f.startswith(prop + "-"):
+                os.remove(os.path.join(V.REPLAYS, f))
     plan = seq_plan(prop, tier)
     if plan is None:
         raise ToolError("no plan for %s" % prop)
